@@ -235,9 +235,32 @@ def check(pid, tier, seed, wd, only, t0):
                 d = '%s="%s"' % (macro, sp)
                 if d not in j.defines: j.defines.append(d)
         for j in alljobs:
+            # SNIP_AUTO: file-static helpers that the lifted code turns out to need (see below); empty unless a retry fills it
+            if j.snippets:
+                ap = os.path.join(wd, 'snip_AUTO.inc')
+                if not os.path.exists(ap): open(ap, 'w').write('// helpers lifted automatically because lifted code refers to them\n')
+                d = 'SNIP_AUTO="%s"' % ap
+                if d not in j.defines: j.defines.append(d)
+        for j in alljobs:
             for u in [j.unit] + j.extra_units:
                 key = (u, tuple(j.defines))
-                if key not in units: units[key] = compile_unit(u, wd, j.defines)
+                if key in units: continue
+                for attempt in range(6):
+                    try:
+                        units[key] = compile_unit(u, wd, j.defines); break
+                    except RuntimeError as e:
+                        # a lifted function may call a file-static helper that a refactor introduced: lift the helper too and retry
+                        import re as _re
+                        missing = _re.findall(r"use of undeclared identifier '([A-Za-z_][A-Za-z0-9_]*)'", str(e))
+                        srcs = sorted({rel for rel, _ in j.snippets.values()})
+                        added = False
+                        for name in dict.fromkeys(missing):
+                            for rel in srcs:
+                                try: body = extract_function(os.path.join(REPO, rel), name)
+                                except RuntimeError: continue
+                                with open(os.path.join(wd, 'snip_AUTO.inc'), 'a') as f: f.write('// auto-lifted from %s\n' % rel + body + '\n')
+                                added = True; break
+                        if not added or attempt == 5: raise
     except RuntimeError as e:
         # the harness no longer compiles against /repo (an internal name it reaches into changed): no verdict, never a VIOLATION
         print('INCONCLUSIVE harness does not compile against the current tree: %s' % str(e)[-1500:])
